@@ -32,12 +32,12 @@ RULE = (
     "distinct = distinct digest of the logged inputs."
 )
 STRATA = {
-    "table_build": (2400, 110000),
-    "match": (2400, 110000),
-    "similarity": (900, 40000),
-    "invalid": (1100, 45000),
-    "selectors": (1500, 70000),
-    "big_codes": (500, 25000),
+    "table_build": (7000, 120000),
+    "match": (7000, 120000),
+    "similarity": (2500, 40000),
+    "invalid": (3000, 45000),
+    "selectors": (4500, 70000),
+    "big_codes": (1500, 25000),
 }
 REQUIRED_ORACLES = [
     "create_kmers_vs_naive", "get_kmers_vs_model", "count_vs_model", "lookup_vs_model",
@@ -664,8 +664,11 @@ def check_kmer_alphabet(ctx, rng, w, codes):
             ctx.fail("create_kmers_vs_naive", "fuse(split(c)) != c", codes=some, got=[int(x) for x in fu])
 
 
+_FORCED = set()      # trigger classes a probe exercises on purpose
+
+
 def lookup_allowed(ctx, code):
-    return code < BIG or ctx.allowed("bucket_lookup_code_ge_2_32")
+    return code < BIG or "bucket_lookup_code_ge_2_32" in _FORCED or ctx.allowed("bucket_lookup_code_ge_2_32")
 
 
 def check_table(ctx, rng, w, t, model, kind, deep=True):
@@ -1556,7 +1559,7 @@ def selftest(ctx):
     s = "ACCNTANNG"
     model_add_seq(model, KA(5, 2), [amb[c] for c in s], 0, [c == "N" for c in s])
     assert model == {0 * 5 + 1: [(0, 0)], 1 * 5 + 1: [(0, 1)], 3 * 5 + 0: [(0, 4)]}
-    assert KA(2, 2, [0, 2]).keep([False, True, False, False, False], 5) == [True, True, True]
+    assert KA(2, 2, [0, 2]).keep([False, True, False, False, False], 5) == [True, False, True]
     assert KA(2, 2, [0, 2]).keep([False, False, True, False, False], 5) == [False, True, False]
     # multimap + match, docstring literal: TTATA / CTAG, query TAG
     model = {}
@@ -1597,7 +1600,7 @@ def selftest(ctx):
                 assert naive_minimizers(list(order), window) == sorted(alt), (order, window)
     # syncmers, docstring literal (Edgar 2021): GGCAAGTGACA, k=5, s=2, closed syncmers
     assert naive_syncmers([acgt[c] for c in "GGCAAGTGACA"], 4, 5, 2, (0, -1), lambda c: c) == [0, 3, 4, 5]
-    assert naive_syncmers([acgt[c] for c in "GGCAAGTGACA"], 4, 5, 2, (0,), lambda c: c) == [3]
+    assert naive_syncmers([acgt[c] for c in "GGCAAGTGACA"], 4, 5, 2, (0,), lambda c: c) == [3, 4]
     assert to_signed64((1 << 63)) == -(1 << 63) and to_signed64(-1) == -1
 
 
@@ -1652,6 +1655,7 @@ def _probe_spaced_mask(ctx):
 
 def _probe_bucket_lookup(ctx):
     """BucketKmerTable[kmer] for k-mer codes >= 2^32."""
+    _FORCED.add("bucket_lookup_code_ge_2_32")
     rng = np.random.default_rng(32)
     for n, k in ((6, 13), (24, 7), (2, 40)):
         w = _probe_world(ctx, n, k, None, None)
